@@ -56,7 +56,9 @@ class PythonPrinter:
         self._re_indent_keyword = re.compile(
             r"^\s*(def|class|else|elif|except|finally)"
         )
-        self._re_unindentor = re.compile(r"^\s*(else|elif|except|finally).*\:")
+        self._re_unindentor = re.compile(
+            r"^\s*(else|elif|except|finally).*\:", re.S
+        )
 
     def _update_lineno(self, num):
         self.lineno += num
